@@ -27,11 +27,15 @@ LEVEL_NOTE = ("Trusted: Lean kernel (standard axioms); numpy reshape/moveaxis se
 LEAN_TARGETS = ["QclibModel.Props.C09"]
 DRIVER = "Drivers/C09.lean"
 THEOREMS = ["Qclib.C09_roundtrip", "Qclib.C09_roundtrip_vec", "Qclib.C09_roundtrip_mat", "Qclib.C09_bits",
-            "Qclib.C09_axes_sorted", "Qclib.C09_pow2", "Qclib.C09_sliced_orthonormal", "Qclib.C09_compose"]
+            "Qclib.C09_axes_sorted", "Qclib.C09_pow2", "Qclib.C09_sliced_orthonormal", "Qclib.C09_compose",
+            "Qclib.C09_rank_src"]
 TRUSTED = [
     "numpy reshape (C order) and moveaxis semantics as written in Model/Schmidt.lean (validated by the exact permutation tie each run)",
     "np.linalg.svd returns U, s, Vh with M = U diag(s) Vh, orthonormal columns/rows, s sorted non-increasing and >= 0 (validated numerically each run)",
     "math.log2/ceil on integers: 2**ceil(log2(x)) is the least power of two >= x (tied exhaustively on small x and at 2^k-1, 2^k, 2^k+1 up to 2^20)",
+    "tools/py2lean.py: _effective_rank and the rank statements of low_rank_approximation are re-translated from the source on every "
+    "run (Gen/SchmidtRank.lean) and proved equal to effRank / rankRule (C09_rank_src); second tie: the generated definitions run by "
+    "the driver on exact rationals vs the Python originals (tools/schmidt_src.py: spectra with entries at / one ulp around 10**-7)",
 ]
 ASSUMPTIONS = ["exact arithmetic in the theorems; implementation compared to 1e-7",
                "the 'edge-tail' boundary families place one coefficient at 3e-7 / 3.3e-8 (excluded band (5e-8, 2e-7) instead of [1e-9, 1e-5]): "
@@ -135,7 +139,15 @@ def tie_ranks(ctx, lr, s):
     ctx.count("ranks")
 
 
+def generate(ctx):
+    """Rank rule re-translated from the current source (tools/schmidt_src.py); a refusal raises (broken obligation)."""
+    import schmidt_src
+    return schmidt_src.generate(ctx, "QclibModel.Props.C09", ["Qclib.C09_rank_src"])
+
+
 def run_tie(ctx):
+    import schmidt_src
+    schmidt_src.tie(ctx)
     quick = ctx.quick
     nmax = 6 if quick else 8
     nperm = 4 if quick else 5
@@ -553,9 +565,11 @@ def search(ctx, hints):
                     for name, v in families(ctx, rng, n, p)[:4]:
                         for r in (0, 1, 2):
                             oracle_case(ctx, name, n, p, v, r)
-        elif op.get("op") in ("rank", "ranks"):
+        elif op.get("op") in ("rank", "ranks", "gen_rank"):
             # is the rank the least power of two on a real decomposition with that many coefficients?
             eff = op.get("eff", len(op.get("s", [])))
+            if op.get("op") == "gen_rank":
+                eff = sum(1 for a, b in zip(op["num"], op["den"]) if a / b > 1e-6)
             n = max(2, 2 * max(1, math.ceil(math.log2(max(eff, 1)))))
             if n <= 10 and eff >= 1:
                 part = list(range(n // 2))
